@@ -134,8 +134,10 @@ def is_label(q, nan, isq, x): return If(isq, Or(Has(GetLabels(q, nan), x), And(x
 
 class Feat:
     """everything about one feature f: its raw order at entry g0, its label order LO, and the spec of the regrouping"""
-    def __init__(s, o, f):
-        s.nan = o['str_nan']; s.isq = Has(o['quantitative_features'], f); s.g0 = DVG.get(o['values_orders'], f); s.q = L(s.g0); s.LO = DVG.get(o['label_orders'], f); s.keys = K(s.LO)
+    def __init__(s, o, f, parts=None):
+        if parts is not None: s.nan, s.isq, s.g0, s.LO = parts                      # (explicit pieces: used by callers' contracts)
+        else: s.nan = o['str_nan']; s.isq = Has(o['quantitative_features'], f); s.g0 = DVG.get(o['values_orders'], f); s.LO = DVG.get(o['label_orders'], f)
+        s.q = L(s.g0); s.keys = K(s.LO)
     def members(s, j): return grp(s.LO, At(s.keys, j))
     def R(s, j): return RawList(s.q, s.nan, s.isq, s.members(j))
     def kept(s, j):
@@ -146,6 +148,7 @@ class Feat:
         j, i = Int('j_st'), Int('i_st'); x = Const('x_st', Val); n = Len(s.keys)
         return [('wf', WF(cur)), ('no_value_lost', G.same_members_except(s.g0, cur)),
                 ('leaders_only_removed', ForAll([x], Implies(Has(L(cur), x), Has(L(s.g0), x)), patterns=[Has(L(cur), x)])),
+                ('remaining_leaders_keep_their_relative_order', G.order_kept(s.g0, cur)),
                 ('done_groups_led_by_kept', ForAll([j], Implies(And(0 <= j, j < k), Has(L(cur), s.kept(j))), patterns=[At(s.keys, j)])),
                 ('done_groups_hold_the_members_of_their_raw_values', ForAll([j, i, x], Implies(And(s.rng(j, i, 0, k), Has(grp(s.g0, At(s.R(j), i)), x)), Has(grp(cur, s.kept(j)), x)), patterns=[Has(grp(s.g0, At(s.R(j), i)), x)])),
                 ('done_groups_other_raw_values_no_longer_lead', ForAll([j, i], Implies(And(s.rng(j, i, 0, k), At(s.R(j), i) != s.kept(j)), Not(Has(L(cur), At(s.R(j), i)))), patterns=[At(s.R(j), i)])),
@@ -214,3 +217,30 @@ SPECS['convert_to_values'] = FunctionSpec(qual='convert_to_values', file=FILE,
     params=[('features', LVAL), ('quantitative_features', LVAL), ('values_orders', DVG), ('label_orders', DVG), ('str_nan', VAL)], returns=DVG, modifies=['values_orders'],
     requires=ctv_req, ensures=ctv_post, locals={'labels_to_quantiles': TAB, '_': TAB, 'order': GL, 'group_to_discard': LVAL, 'which_to_keep': LVAL},
     lemmas={'group_to_discard': gtd_lemmas, '$entry': entry_lemmas}, loops={0: LoopSpec(inv=ctv_outer), 1: LoopSpec(inv=ctv_inner, body_lemmas=inner_body_lemmas)})
+
+
+# ------------------------------------------------------------------------------------------------ BaseCarver._update_orders  (AutoCarver/carvers/base_carver.py)
+# the chosen combination (a GroupedList over the LABELS of one feature) is written on the raw values, then every label order is recomputed
+BCU = TObj('BaseCarverU', [('features', LVAL), ('quantitative_features', LVAL), ('values_orders', DVG), ('str_nan', VAL)])
+def FU(o, n): return BCU.get(o, n)
+CSPECS = {}
+for k in ('convert_to_values', 'convert_to_labels'):
+    c = _copy.copy(SPECS[k]); c.pure = True; c.note = 'ASSUMED here, proved above (contracts.conversion)'; CSPECS[k] = c
+
+def uo_req(o):
+    s = o['self']; f = o['feature']; g = Const('g_ur', Val); q = FU(s, 'quantitative_features'); feats = FU(s, 'features'); vo = FU(s, 'values_orders'); nan = FU(s, 'str_nan'); no = o['new_order']
+    kk = Const('k_ur', Val); i = Int('i_ur')
+    return And(orders_ok(feats, vo, nan), Nodup(q), ForAll([g], Implies(Has(q, g), And(Has(feats, g), Truthy(g))), patterns=[Has(q, g)]), Has(feats, f), WF(no),
+               ForAll([kk, i], Implies(And(Has(K(no), kk), 0 <= i, i < Len(grp(no, kk))), is_label(L(DVG.get(vo, f)), nan, Has(q, f), At(grp(no, kk), i))), patterns=[At(grp(no, kk), i)]))
+
+def uo_post(o, n, r):
+    s0, s1 = o['self'], n['self']; f = o['feature']; g = Const('g_up', Val); nan = FU(s0, 'str_nan'); q = FU(s0, 'quantitative_features'); feats = FU(s0, 'features')
+    vo0, vo1 = FU(s0, 'values_orders'), FU(s1, 'values_orders')
+    F_ = Feat(None, f, parts=(nan, Has(q, f), DVG.get(vo0, f), o['new_order']))
+    return [('only_values_orders_written', And(FU(s1, 'features') == feats, FU(s1, 'quantitative_features') == q, FU(s1, 'str_nan') == nan, DVG.keys(vo1) == DVG.keys(vo0))),
+            ('the_chosen_grouping_of_labels_is_written_on_the_raw_values', And(*[x for _, x in F_.state(DVG.get(vo1, f), Len(F_.keys))])),
+            ('other_features_untouched', ForAll([g], Implies(g != f, DVG.get(vo1, g) == DVG.get(vo0, g)), patterns=[DVG.get(vo1, g)])),
+            ('label_orders_recomputed_from_the_new_values_orders', And(DVG.keys(r) == feats, ForAll([g], Implies(Has(feats, g), is_order(DVG.get(r, g), final_list(vo1, nan, q, BoolVal(False), g))), patterns=[Has(feats, g)])))]
+
+CSPECS['BaseCarver._update_orders'] = FunctionSpec(qual='BaseCarver._update_orders', file='AutoCarver/carvers/base_carver.py', cls='BaseCarverU',
+    params=[('self', BCU), ('feature', VAL), ('new_order', GL), ('labels_orders', DVG)], returns=DVG, modifies=['self', 'labels_orders'], requires=uo_req, ensures=uo_post)
